@@ -334,7 +334,11 @@ pub fn simplify_bezpath(
             }
             PathEl::ClosePath => {
                 state.flush(accuracy, options);
-                state.result.close_path();
+                // A subpath without any segment of non-zero length has produced no output
+                // (not even its `MoveTo`), so there is nothing to close.
+                if !state.needs_moveto {
+                    state.result.close_path();
+                }
                 state.needs_moveto = true;
                 last_seg = None;
                 continue;
